@@ -107,6 +107,8 @@ def _parse_op(rng, cfg, modes, p=None):
         op['fio'] = True
     elif r < 0.33:
         op['givecode'] = rng.choice(['bytes', 'str'])      # code= and path= together (no yields inside)
+    elif r < 0.39:
+        op['direntry'] = True                              # an os.DirEntry as path
     return op
 
 
